@@ -96,4 +96,45 @@ CLAIMS["C19"] = {"text": "TLC checks on the reference scanner that spelling a to
                         "(hyphens, raw/comment, default delimiters as text, error lines) are rendered on an engine configured "
                         "with Engine.Delims and validated against the render reference (TraceRender)."}
 
+CLAIMS["C01"] = {"text": "The specification has no panic state: TLC evaluates the filter reference on the whole boundary matrix (49 "
+                        "filters x 31 receivers x 0-2 of 16 boundary arguments), the tokenizer on every expression-symbol string of "
+                        "<= 2/4 symbols inside 8 tag forms and on all delimiter-alphabet sources, proving totality of the reference "
+                        "and a step bound; every emitted case, plus seeded template text with bindings of every representation the "
+                        "statement lists, mutants of the repository's test templates and grammar programs, is parsed and rendered "
+                        "under a deadline and TraceC01/TraceC05 accept only output or a SourceError.",
+                 "note": "Trusted: TLC, the harness. Arbitrary-byte coverage is bounded-exhaustive over small alphabets plus seeded "
+                         "samples, not coverage-guided fuzzing; the time bound is a per-case deadline (20-30 s), not a measured "
+                         "proportionality."}
+CLAIMS["C02"] = {"text": "MC_Engine (TLC): same template and bindings give the same result in every history and interleaving of up to 3 "
+                        "renders by 2 goroutines and for every order Go may iterate a map in (the RandomOrder policy yields the "
+                        "counterexample). The implementation renders pooled templates, incl. maps of 2-12 entries in loops and array "
+                        "filters, through all six entry points and the CLI, on fresh parses/engines, with re-built maps, in two "
+                        "processes; TraceEngine keeps the first result per (template, bindings) and rejects any later difference "
+                        "and any result the render reference does not allow."}
+CLAIMS["C03"] = {"text": "MC_Engine (TLC): BindingsImmutable, Independent (each result equals the render run alone), NoCarryOver in "
+                        "every state of every interleaving of 3 renders over templates that re-assign binding names, keep loop/"
+                        "cycle/capture state and fail half-way (the NoCopy policy yields the counterexample). The implementation "
+                        "runs seeded histories of 2-40 renders on one engine with deep snapshots of the bindings before and after "
+                        "each, and TraceEngine validates every event (snapshots equal, result equals memo and the reference)."}
+CLAIMS["C04"] = {"text": "The shared cells written at render time are extracted from the current tree (go/ssa) into the cells constant "
+                        "of MC_Engine, where TLC explores every interleaving (NoConflict; each concurrent render returns what it "
+                        "returns alone); a conflict found there is a candidate that the dynamic part must reproduce: sessions of 96 "
+                        "parses/renders over templates covering every standard tag and filter run from 2/8/32 goroutines sharing "
+                        "engine, templates and bindings under the Go race detector at several GOMAXPROCS; any race report is a "
+                        "violation and every concurrent result is validated by TraceEngine against the run alone.",
+                 "technique": "TLA+ engine model checked by TLC over an access table extracted from the code (go/ssa), plus trace "
+                              "validation of concurrent executions observed under the Go race detector",
+                 "note": "Data-race detection is the Go race detector observing the executions that happen; the all-interleavings "
+                         "result is TLC's over the extracted closure-variable / package-variable access table."}
+CLAIMS["C14"] = {"text": "TLC runs the render machine on include layouts (includer depth 0-2, target beside/below it, argument as "
+                        "literal/variable/filtered/assigned, target on disk / cache / both / missing, decoy relative to the working "
+                        "directory, nested includes, include in a loop, six failure kinds) checking include = inlining with a copy "
+                        "of the variables; each layout is materialised in temporary directories (cache via ParseTemplateAndCache), "
+                        "rendered, and trace-validated."}
+CLAIMS["C18"] = {"text": "Values of the specification carry no representation, so every realisation of an environment must give the "
+                        "reference output: TLC enumerates the representation assignments the statement allows (all integer and "
+                        "float widths printed/compared/in arithmetic, typed slices and fixed arrays, typed and ordered maps, "
+                        "[]byte, pointers, Drops at every subset of nodes of a nested environment) and every realisation is "
+                        "rendered by the implementation and trace-validated against the reference."}
+
 NOT_CLAIMED = {}
